@@ -8,8 +8,9 @@ the locality groups of `Cla.lean`; `selectNetworkGateways`, `filterGatewaysByIPF
 pilot/pkg/model/network.go `NetworkGateways.update` (indexes, lcm), `SortGateways`.
 
 Assumed by the harness world: gateway addresses are IP addresses (IPv6 iff the text contains ':'),
-no DestinationRule TLS settings and no PeerAuthentication, so an endpoint "has mTLS enabled" iff its
-`TLSMode` is `istio`.
+no DestinationRule TLS settings; a PeerAuthentication is either absent or disables mTLS for the whole
+namespace (`Builder.mtlsOff`), so an endpoint "has mTLS enabled" iff its `TLSMode` is `istio` and
+mTLS is not disabled.
 -/
 namespace IstioModel.C13
 
@@ -40,13 +41,18 @@ structure OutGroup where
 
 def two32 : Nat := 4294967296
 
-/-- `buildEnvoyLbEndpoint`: address, health (draining label), weight. -/
-def lbOf (e : Ep) : LbEp :=
+/-- `mtlsChecker.checkMtlsEnabled` in the assumed configuration (no DestinationRule TLS settings):
+    the endpoint has a sidecar (`TLSMode = istio`) and no PeerAuthentication disables mTLS for it. -/
+def mtlsOn (b : Builder) (e : Ep) : Bool := e.tls == "istio" && !b.mtlsOff
+
+/-- `buildEnvoyLbEndpoint`: address, health (draining label), weight, mTLS metadata. -/
+def lbOf (b : Builder) (e : Ep) : LbEp :=
   { host := e.addrs.headD "", port := e.eport, pipe := e.eport = 0,
     health := if (e.labels.lookup drainingLabel).getD "" != "" then 3 else e.health,
-    weight := lbWeight e, mtls := e.tls == "istio" }
+    weight := lbWeight e, mtls := mtlsOn b e }
 
-def Group.toOut (g : Group) : OutGroup := { loc := g.loc, eps := g.eps.map lbOf, weight := g.weight }
+def Group.toOut (b : Builder) (g : Group) : OutGroup :=
+  { loc := g.loc, eps := g.eps.map (lbOf b), weight := g.weight }
 
 /-- `SortGateways`: by address, then port. -/
 def gwLe (a b : Gw) : Bool := a.addr < b.addr || (a.addr == b.addr && a.port ≤ b.port)
@@ -82,7 +88,10 @@ def selectGws (all : List Gw) (net cluster : String) : List Gw :=
   let l := if nc.isEmpty then sortGws (all.filter fun g => g.net == net) else nc
   l.filter fun g => g.port != 0
 
-def isV6 (addr : String) : Bool := addr.toList.contains ':'
+/-- The address family after `netip.Addr.Unmap`: an IPv4-mapped IPv6 address (`::ffff:a.b.c.d`)
+    counts as IPv4. Gateway addresses are IP addresses here (IPv6 iff the text has a ':'). -/
+def isV6 (addr : String) : Bool :=
+  addr.toList.contains ':' && !(addr.startsWith "::ffff:" && addr.toList.contains '.')
 
 /-- `filterGatewaysByIPFamily`. -/
 def reachableGws (b : Builder) (gws : List Gw) : List Gw :=
@@ -92,11 +101,17 @@ def reachableGws (b : Builder) (gws : List Gw) : List Gw :=
 /-- `scaleEndpointLBWeight` (the endpoint weight is at least 1 here). -/
 def scaleW (w scale : Nat) : Nat := if w < maxU32 / scale then w * scale else maxU32
 
-/-- `gatewayWeights[gateway] += share` on a uint32 map. -/
-def addShare (acc : List (Gw × Nat)) (g : Gw) (s : Nat) : List (Gw × Nat) :=
+/-- `gatewayWeights[gateway] += share` on the pinned tree: plain uint32 addition, which wraps. -/
+def addSharePinned (acc : List (Gw × Nat)) (g : Gw) (s : Nat) : List (Gw × Nat) :=
   match acc with
   | [] => [(g, s % two32)]
-  | (g', w) :: t => if g' = g then (g, (w + s) % two32) :: t else (g', w) :: addShare t g s
+  | (g', w) :: t => if g' = g then (g, (w + s) % two32) :: t else (g', w) :: addSharePinned t g s
+
+/-- `gatewayWeights[gateway], _ = addUint32(gatewayWeights[gateway], share)` (repaired: saturating). -/
+def addShare (acc : List (Gw × Nat)) (g : Gw) (s : Nat) : List (Gw × Nat) :=
+  match acc with
+  | [] => [(g, addU32 0 s)]
+  | (g', w) :: t => if g' = g then (g, addU32 w s) :: t else (g', w) :: addShare t g s
 
 /-- `splitWeightAmongGateways`. -/
 def splitWeight (acc : List (Gw × Nat)) (gws : List Gw) (share : Nat) : List (Gw × Nat) :=
@@ -109,9 +124,6 @@ inductive Route
   | dropped
   deriving Repr
 
-/-- Endpoint "has mTLS enabled" (`isMtlsEnabled` on the metadata written by `buildEnvoyLbEndpoint`). -/
-def mtlsOn (e : Ep) : Bool := e.tls == "istio"
-
 /-- The per-endpoint decision of `EndpointsByNetworkFilter`. -/
 def route (b : Builder) (all : List Gw) (e : Ep) : Route :=
   if !visible b e then .dropped else
@@ -120,10 +132,10 @@ def route (b : Builder) (all : List Gw) (e : Ep) : Route :=
   let w := scaleW (lbWeight e) (let s := scaleFactor all; if s = 0 then 1 else s)
   let forceGateway := b.proxyNetwork == "" && e.net != "" && !gws.isEmpty
   if !forceGateway && (sameOrEmpty e.net b.proxyNetwork || gws.isEmpty) then
-    let le := lbOf e
+    let le := lbOf b e
     if !le.pipe && le.host != "" then .direct { le with weight := w } else .dropped
   else if reach.isEmpty then .dropped
-  else if !mtlsOn e then .dropped
+  else if !mtlsOn b e then .dropped
   else .via reach (w / reach.length)
 
 def directOf : Route → List LbEp
@@ -144,18 +156,25 @@ def gwWeights (b : Builder) (all : List Gw) (eps : List Ep) : List (Gw × Nat) :
 def gwEndpoint (gw : Gw) (w : Nat) : LbEp :=
   { host := gw.addr, port := gw.port, health := 0, weight := if w = 0 then 1 else w, mtls := true }
 
+/-- `refreshWeight` (repaired): the saturating sum of the endpoints' weights (`addUint32`), as in
+    `generate`; absent (0) when the locality became empty. -/
+def refreshWeight (eps : List LbEp) : Nat := eps.foldl (fun w e => addU32 w e.weight) 0
+
+/-- `refreshWeight` on the pinned tree: plain uint32 `+=`, which wraps. -/
+def refreshWeightPinned (eps : List LbEp) : Nat := (eps.map (·.weight)).sum % two32
+
 /-- One locality through the filter: directly reachable members, then one endpoint per gateway used
-    (sorted), `refreshWeight` (uint32 sum, absent = 0 when the locality became empty). -/
+    (sorted), `refreshWeight`. -/
 def filterGroup (b : Builder) (all : List Gw) (g : Group) : OutGroup :=
   let direct := g.eps.flatMap fun e => directOf (route b all e)
   let ws := gwWeights b all g.eps
   let gwEps := (sortGws (ws.map (·.1))).map fun gw => gwEndpoint gw ((ws.lookup gw).getD 0)
   let eps := direct ++ gwEps
-  { loc := g.loc, eps := eps, weight := (eps.map (·.weight)).sum % two32 }
+  { loc := g.loc, eps := eps, weight := refreshWeight eps }
 
 /-- `EndpointsByNetworkFilter`: the identity unless network gateways are configured. -/
 def networkFilter (b : Builder) (all : List Gw) (gs : List Group) : List OutGroup :=
-  if all.isEmpty then gs.map Group.toOut else gs.map (filterGroup b all)
+  if all.isEmpty then gs.map (Group.toOut b) else gs.map (filterGroup b all)
 
 /-- What the proxy is served for the cluster. -/
 def serveCLA (b : Builder) (all : List Gw) (ss : Option ShardSet) : Option (List OutGroup) :=
